@@ -24,6 +24,7 @@ import (
 	"time"
 
 	"github.com/goreleaser/nfpm/v2"
+	"github.com/goreleaser/nfpm/v2/files"
 )
 
 var errInjected = errors.New("injected sink failure")
@@ -433,6 +434,78 @@ func famFault(tr *Trace, scratch string, seed int64, tier string, workers int, r
 		}
 	}
 
+	// ---- invalid settings that only a hand-built Info can have (no defaults applied): no architecture for THIS package
+	{
+		root := filepath.Join(scratch, "handbuilt")
+		Materialise(root, smallTree())
+		for _, class := range []string{"handbuilt_none", "handbuilt_no_arch", "handbuilt_arch_of_other", "handbuilt_own_arch", "handbuilt_no_version", "handbuilt_no_name"} {
+			for _, f := range allFormats {
+				info := &nfpm.Info{Name: "hbpkg", Arch: "amd64", Platform: "linux", Version: "1.0.0", Maintainer: "Jane Doe <jane@example.org>", Description: "hand built"}
+				info.Contents = files.Contents{{Source: root + "/src/bin", Destination: "/usr/bin/hbtool"}}
+				info.MTime = time.Unix(1600000000, 0)
+				switch class {
+				case "handbuilt_no_arch":
+					info.Arch = ""
+				case "handbuilt_arch_of_other":
+					info.Arch = ""
+					if f != "deb" {
+						info.Deb.Arch = "amd64"
+					}
+					if f != "rpm" {
+						info.RPM.Arch = "x86_64"
+					}
+					if f != "apk" {
+						info.APK.Arch = "x86_64"
+					}
+					if f != "ipk" {
+						info.IPK.Arch = "x86_64"
+					}
+					if f != "archlinux" {
+						info.ArchLinux.Arch = "x86_64"
+					}
+				case "handbuilt_own_arch":
+					info.Arch = ""
+					switch f {
+					case "deb":
+						info.Deb.Arch = "amd64"
+					case "rpm":
+						info.RPM.Arch = "x86_64"
+					case "apk":
+						info.APK.Arch = "x86_64"
+					case "ipk":
+						info.IPK.Arch = "x86_64"
+					case "archlinux":
+						info.ArchLinux.Arch = "x86_64"
+					}
+				case "handbuilt_no_version":
+					info.Version = ""
+				case "handbuilt_no_name":
+					info.Name = ""
+				}
+				var buf bytes.Buffer
+				pk, _ := nfpm.Get(f)
+				var err error
+				func() {
+					defer func() {
+						if r := recover(); r != nil {
+							err = fmt.Errorf("panic: %v", r)
+						}
+					}()
+					err = pk.Package(info, &buf)
+				}()
+				id++
+				ninv++
+				ret, msg := "ok", ""
+				if err != nil {
+					ret, msg = "error", safeStr(strings.ReplaceAll(err.Error(), root, "$ROOT"))
+				}
+				var sf *nfpm.ErrSigningFailure
+				tr.Emit(id, []M{{"ev": "case", "id": id, "fam": "invalid"},
+					{"ev": "invalid", "class": class, "fmt": f, "ret": ret, "errmsg": msg, "is_signing_failure": errors.As(err, &sf)}, {"ev": "endcase"}})
+			}
+		}
+	}
+
 	// ---- the command-line tool
 	if nfpmBin != "" {
 		ncli = famCli(tr, &id, scratch, nfpmBin, behaviours)
@@ -495,6 +568,9 @@ func famCli(tr *Trace, id *int, scratch, bin, behaviours string) int {
 	run := func(f, targetKind, fault string, withP bool, tlc *cliBehaviour) {
 		work := filepath.Join(scratch, fmt.Sprintf("cli-%d", *id+1))
 		outDir := filepath.Join(work, "out")
+		if targetKind == "dir_dotted" { // an existing directory whose name looks like a file name with an extension
+			outDir = filepath.Join(work, "nightly-2024.06.01")
+		}
 		cwd := filepath.Join(work, "cwd")
 		must(os.MkdirAll(outDir, 0o755))
 		must(os.MkdirAll(cwd, 0o755))
@@ -544,7 +620,7 @@ func famCli(tr *Trace, id *int, scratch, bin, behaviours string) int {
 			target = filepath.Join(outDir, "custom-name"+exts[other[f]])
 		case "file_no_ext":
 			target = filepath.Join(outDir, "artifact")
-		case "dir":
+		case "dir", "dir_dotted":
 			target = outDir
 		case "dir_slash":
 			target = outDir + "/"
@@ -604,7 +680,7 @@ func famCli(tr *Trace, id *int, scratch, bin, behaviours string) int {
 		switch targetKind {
 		case "file", "file_foreign_ext", "file_other_ext", "file_no_ext", "devfull", "existing_larger":
 			expPath = target
-		case "dir", "dir_slash":
+		case "dir", "dir_slash", "dir_dotted":
 			expPath = filepath.Join(outDir, refName)
 		case "symlink_dir":
 			expPath = filepath.Join(outDir, refName)
@@ -736,7 +812,7 @@ func famCli(tr *Trace, id *int, scratch, bin, behaviours string) int {
 		return n
 	}
 	for _, f := range allFormats {
-		for _, tk := range []string{"file", "dir", "dir_slash", "empty", "symlink_dir", "existing_larger"} {
+		for _, tk := range []string{"file", "dir", "dir_slash", "dir_dotted", "empty", "symlink_dir", "existing_larger"} {
 			run(f, tk, "none", true, nil)
 		}
 		run(f, "file", "none", false, nil) // packager inferred from the extension
